@@ -42,6 +42,7 @@ type Contract struct {
 }
 
 type SpecFun struct {
+	Unsigned bool // result is an unsigned bit-vector (declared with a u* alias)
 	Name     string
 	ArgNames []string
 	ArgSorts []string
@@ -57,10 +58,11 @@ type Axiom struct {
 }
 
 type Ghost struct {
-	Name string
-	Sort string
-	Init string // SMT text or "" (fresh at entry)
-	Tags []string
+	Stable bool
+	Name   string
+	Sort   string
+	Init   string // SMT text or "" (fresh at entry)
+	Tags   []string
 }
 
 type Lemma struct {
@@ -311,11 +313,22 @@ func (lib *SpecLib) parseLines(lines []rawLine, pkgPath string, isSpec bool) err
 			for _, fl := range fields[1:] {
 				cur.Flags[fl] = true
 			}
-			if old, dup := lib.Contracts[key]; dup {
-				return fail("duplicate contract for %s (first at %s:%d)", key, old.File, old.Line)
-			}
-			lib.Contracts[key] = cur
 			counts = map[string]int{}
+			if old, dup := lib.Contracts[key]; dup {
+				// several blocks for one function (contracts are organised by property): merge
+				if old.Extern != cur.Extern {
+					return fail("contract for %s is both extern and func (first at %s:%d)", key, old.File, old.Line)
+				}
+				for fl := range cur.Flags {
+					old.Flags[fl] = true
+				}
+				cur = old
+				for _, cl := range old.Clauses {
+					counts[cl.Kind]++
+				}
+			} else {
+				lib.Contracts[key] = cur
+			}
 			if cur.Extern {
 				lib.Assumes = append(lib.Assumes, "assumed contract of dependency "+key)
 			}
@@ -406,6 +419,7 @@ func (lib *SpecLib) parseLines(lines []rawLine, pkgPath string, isSpec bool) err
 			}
 			tail := strings.TrimSpace(rest[cl+1:])
 			if word == "fun" {
+				sf.Unsigned = strings.HasPrefix(strings.TrimSpace(tail), "u")
 				sf.Ret = resolveSort(tail)
 				lib.Assumes = append(lib.Assumes, "uninterpreted spec function "+sf.Name)
 			} else {
@@ -413,6 +427,7 @@ func (lib *SpecLib) parseLines(lines []rawLine, pkgPath string, isSpec bool) err
 				if i < 0 {
 					return fail("define needs '= body'")
 				}
+				sf.Unsigned = strings.HasPrefix(strings.TrimSpace(tail[:i]), "u")
 				sf.Ret = resolveSort(tail[:i])
 				sf.Body = strings.TrimSpace(tail[i+1:])
 				lastRaw = &sf.Body
@@ -451,7 +466,13 @@ func (lib *SpecLib) parseLines(lines []rawLine, pkgPath string, isSpec bool) err
 				return fail("ghost name Sort")
 			}
 			g.Name = def[:i]
-			g.Sort = resolveSort(def[i+1:])
+			srt := strings.TrimSpace(def[i+1:])
+			if strings.HasSuffix(srt, " stable") {
+				// only contracts that name it in modifies/sets change it (objects it describes never escape to callees)
+				g.Stable = true
+				srt = strings.TrimSuffix(srt, " stable")
+			}
+			g.Sort = resolveSort(srt)
 			lib.Ghosts[g.Name] = g
 		default:
 			// continuation line
